@@ -656,7 +656,9 @@ RULE = ("a case is one gradient history (T updates through the public init/updat
 
 
 def run(ctx):
-    ctx.lean_stage()
+    kit.gen_stage(ctx)
+    ctx.lean_stage(extra_props=("Gen",))
+    ctx.notes.append("model tie #2: sm3._get_expanded_shape regenerated from the source by harness/py2lean.py on this run; direct theorems PrecondVerif.GenProps.C12.* (broadcast shape of accumulator i)")
     C = const_stage(ctx)
     ctx.cov["rule"] = RULE
     ctx.assumptions += [
